@@ -42,7 +42,7 @@ Proof. vm_compute. reflexivity. Qed.
 (** two workers, two blocks of 5 and 7 rows: the caller returns a table with ONE block and
     rowsCount = 5 instead of two blocks and 12 *)
 Lemma pool_refuted :
-  let s := run cfg_unlocked sched_lost (init cfg_unlocked [PBlk blk0; PBlk blk1]) in
+  let s := runs cfg_unlocked sched_lost (init cfg_unlocked [PBlk blk0; PBlk blk1]) in
   main_done s = true /\ panicked s = false /\
   result s = Some (ROk 5 [blk1]) /\
   seq_result [blk0; blk1] = ROk 12 [blk0; blk1].
@@ -58,7 +58,7 @@ Definition sched_closed : list nat := [0; 1; 1; 3; 3; 3; 3; 0; 0; 0; 0; 1; 1; 1]
     closed channel: panic *)
 Lemma sorter_close_refuted :
   outer_ok skel_outer_prefix = false /\
-  let s := run cfg_prefix sched_closed (init cfg_prefix [PBlk blk_bad; PBlk blk1; PReadErr]) in
+  let s := runs cfg_prefix sched_closed (init cfg_prefix [PBlk blk_bad; PBlk blk1; PReadErr]) in
   panicked s = true.
 Proof. vm_compute. split; reflexivity. Qed.
 
@@ -72,19 +72,21 @@ Definition sched_leak : list nat :=
     send for ever: no thread can take a step, and the blocks channel is never closed *)
 Lemma producer_leak_refuted :
   send_ok "default-send" = false /\
-  let s := run cfg_prefix sched_leak (init cfg_prefix twelve) in
+  let s := runs cfg_prefix sched_leak (init cfg_prefix twelve) in
   main_done s = true /\ result s = Some RErr /\ closed s = false /\ pend s <> [] /\
   forall t, step cfg_prefix t s = None.
 Proof.
   split; [reflexivity|]. cbv zeta.
-  set (s := run cfg_prefix sched_leak (init cfg_prefix twelve)).
-  assert (E : (main_done s, result s, closed s, panicked s, List.length (ws s), pend s <> []) =
-              (true, Some RErr, false, false, 1, pend s <> [])) by (vm_compute; reflexivity).
-  inversion E as [[E1 E2 E3 E4 E5]].
+  set (s := runs cfg_prefix sched_leak (init cfg_prefix twelve)).
+  assert (E1 : main_done s = true) by (vm_compute; reflexivity).
+  assert (E2 : result s = Some RErr) by (vm_compute; reflexivity).
+  assert (E3 : closed s = false) by (vm_compute; reflexivity).
+  assert (E4 : panicked s = false) by (vm_compute; reflexivity).
+  assert (E5 : List.length (ws s) = 1) by (vm_compute; reflexivity).
   repeat split; auto.
   - vm_compute. discriminate.
   - intros t. do 4 (destruct t as [|t]; [vm_compute; reflexivity|]).
-    unfold step. rewrite E4. apply step_worker_out. lia.
+    unfold step. rewrite E4. apply step_worker_out. rewrite E5. lia.
 Qed.
 
 (* ---- 4. an error channel smaller than the number of workers: the caller hangs *)
@@ -96,14 +98,15 @@ Definition sched_hang : list nat := [0; 1; 1; 1; 3; 4; 3; 4; 3; 4; 3; 4] ++ roun
     send, wg.Wait never returns: deadlock (no thread can take a step, caller not done) *)
 Lemma errchan_refuted :
   errchan_ok "1" = false /\
-  let s := run cfg_cap1 sched_hang (init cfg_cap1 [PBlk blk_bad; PBlk blk_bad1]) in
+  let s := runs cfg_cap1 sched_hang (init cfg_cap1 [PBlk blk_bad; PBlk blk_bad1]) in
   main_done s = false /\ panicked s = false /\ forall t, step cfg_cap1 t s = None.
 Proof.
   split; [reflexivity|]. cbv zeta.
-  set (s := run cfg_cap1 sched_hang (init cfg_cap1 [PBlk blk_bad; PBlk blk_bad1])).
-  assert (E : (main_done s, panicked s, List.length (ws s)) = (false, false, 2)) by (vm_compute; reflexivity).
-  inversion E as [[E1 E2 E3]].
+  set (s := runs cfg_cap1 sched_hang (init cfg_cap1 [PBlk blk_bad; PBlk blk_bad1])).
+  assert (E1 : main_done s = false) by (vm_compute; reflexivity).
+  assert (E2 : panicked s = false) by (vm_compute; reflexivity).
+  assert (E3 : List.length (ws s) = 2) by (vm_compute; reflexivity).
   repeat split; auto.
   intros t. do 5 (destruct t as [|t]; [vm_compute; reflexivity|]).
-  unfold step. rewrite E2. apply step_worker_out. lia.
+  unfold step. rewrite E2. apply step_worker_out. rewrite E3. lia.
 Qed.
